@@ -43,7 +43,7 @@ func genFileCase(t *rapid.T, cfg FileCfg, nWorlds int) *FileCase {
 // ---- facts about a model that several structural oracles need ----
 
 type modelNames struct {
-	entries    []string          // script and inline map script names, in source order
+	entries    []string // script and inline map script names, in source order
 	entrySet   map[string]bool
 	userLabels map[string]string // label written inside a script -> scope ("", "global", "local")
 	topLevel   map[string]bool   // names of every top-level definition (scripts, texts, movements, marts, mapscripts, tables)
